@@ -23,7 +23,7 @@ from typing import Dict, List, Optional, Tuple
 from ..model import AnalysisError, ClassInfo, FunctionInfo, Model
 from ..paths import Path, PathEnumerator, find_calls
 from ..report import Report
-from ..sym import (FALSE, NONE, TRUE, Evaluator, Frame, Term, Unsupported, as_lin, atoms_of, const, lin, number, show, subst, subterms,
+from ..sym import (FALSE, NONE, TRUE, Evaluator, Frame, Outcome, Term, Unsupported, as_lin, atoms_of, const, lin, number, show, subst, subterms,
                    sym, t_add, t_and, t_cmp, t_mul, t_not, t_or, t_scale)
 from .common import call_args, is_call_of, loop_of, strip_identity_wrappers
 
@@ -331,6 +331,19 @@ def _chain_builder(model: Model, rep: Report, f: FunctionInfo, self_cls: Optiona
                 seen_rel = True
                 if dict(st[2]).get("reference_index_kernel") != last:
                     bad.append(f"kernel chained to {show(dict(st[2]).get('reference_index_kernel'))} instead of the previous kernel")
+            elif st is not None and st[0] == "loopvar" and st[2] == lp.node.lineno and st[1] in lp.extra["init_env"]:
+                # carried form: the strategy starts fixed at 0 and, after every kernel, is re-bound to 'relative to that kernel'
+                init_st = lp.extra["init_env"][st[1]]
+                nxt = bp.env.get(st[1])
+                kk = apps[0][2][0]
+                if init_st[0] == "new" and init_st[1] == "FixedIndexStrategy" and number(dict(init_st[2]).get("index", ZERO)) == 0:
+                    seen_fixed = True
+                else:
+                    bad.append(f"first kernel starts from {show(init_st)}")
+                if nxt is not None and nxt[0] == "new" and nxt[1] == "RelativeIndexStrategy" and dict(nxt[2]).get("reference_index_kernel") == kk:
+                    seen_rel = True
+                else:
+                    bad.append(f"after a kernel the carried strategy becomes {show(nxt) if nxt else None} instead of 'relative to the kernel just appended'")
             else:
                 bad.append(f"offset strategy {show(st) if st else None}")
         rep.check(not bad and seen_fixed and seen_rel, "C12.X1", construct + "[chain]", f.loc, found="; ".join(bad) or "first kernel fixed at 0, every later kernel relative to the previous one",
@@ -447,18 +460,31 @@ def x4(model: Model, rep: Report):
         ps = PathEnumerator(ev).function_paths(f, self_cls=E)
         s = sym(f.self_name)
         qid, cnt = sym(f.param_names[1]), sym(f.param_names[2])
-        hits = [p for p in ps if p.exit == "return" and any(e.kind == "loopexit" for e in p.events)]
-        lp = None
+        # the kernel is found by a first-match scan over the repetition kernels (written in the getter, or in a helper it calls);
+        # on the path where the scan hits, the sliced getter(s) of THAT kernel are returned
+        hits = []
         for p in ps:
-            lp = loop_of(p) or lp
-        ok = lp is not None and lp.term == ("attr", s, "_repetition_kernels")
-        elem = ("bound", "for", lp.node.lineno, show(lp.term)) if lp is not None else None
+            lxs = [e for e in p.events if e.kind == "loopexit"]
+            if p.exit != "return" or not lxs:
+                continue
+            lp0 = [e for e in p.events[:p.events.index(lxs[0])] if e.kind == "loop"][-1]
+            el0 = ("bound", "for", lp0.node.lineno, show(lp0.term))
+            # the element the scan stopped at is an element of the list (its attributes were just read): it is not None
+            if subst(p.cond, {t_cmp("is", el0, NONE): FALSE}) == FALSE:
+                continue
+            hits.append(p)
         found = []
+        ok = len(hits) == 1
         if ok:
-            rets = [bp for bp in lp.extra["paths"] if bp.exit == "return"]
-            ok = len(rets) == 1 and rets[0].cond == t_cmp("==", ("attr", elem, "nr_repeated_parities"), cnt)
-            if ok:
-                v = rets[0].value
+            p = hits[0]
+            lx = [e for e in p.events if e.kind == "loopexit"][0]
+            lp = [e for e in p.events[:p.events.index(lx)] if e.kind == "loop"][-1]
+            elem = ("bound", "for", lp.node.lineno, show(lp.term))
+            ok = lp.term == ("attr", s, "_repetition_kernels") and lx.term == t_cmp("==", ("attr", elem, "nr_repeated_parities"), cnt)
+            if not ok:
+                found.append(f"scan over {show(lp.term)} stopping when {show(lx.term)}")
+            else:
+                v = p.value
                 found.append(show(v))
                 parts: Term = ZERO
                 first = True
@@ -468,13 +494,16 @@ def x4(model: Model, rep: Report):
                     first = False
                 # list concatenation keeps order: compare the source order as well
                 want = ("call", ("fn", f"RepetitionExperimentKernel.{slicer}"), (), (("cycle_length", ("attr", s, "kernel_cycle_length")), ("int_list", parts), ("repetitions", ("attr", s, "experiment_repetitions"))))
-                ok = v == want and _concat_order(rets[0].exit_node, getters, f.node)
+                ok = v == want and _concat_order(p.exit_node, getters, f.node)
         rep.check(ok, "C12.X4", f"RepetitionExperimentKernel.{name}", f.loc, found=found or "shape not recognised", required=f"{slicer}({' + '.join(getters)} of the kernel with the requested round count, cycle length, repetitions)",
                   what="the experiment getter does not slice the matching category of the matching kernel", detail=name)
     for name, prefix in (("get_projected_calibration_acquisition_indices", "get_state_{}_measurement_index"), ("get_heralded_calibration_acquisition_indices", "get_heralded_state_{}_measurement_index")):
         f = E.resolve(name)
         ev = Evaluator(model, inline_methods=False, opaque={"RepetitionExperimentKernel.kernel_cycle_length", "RepetitionExperimentKernel.experiment_repetitions"})
-        outs = ev.eval_function(f, self_cls=E)
+        try:
+            outs = [Outcome(q.cond, q.exit, q.value, q.exit_node) for q in PathEnumerator(ev).function_paths(f, self_cls=E)]
+        except Unsupported as e:
+            raise AnalysisError(f"RepetitionExperimentKernel.{name}: {e}")
         s = sym(f.self_name)
         qid, st = sym(f.param_names[1]), sym(f.param_names[2])
         bad = []
